@@ -41,7 +41,7 @@ MUTATIONS = [
     ("layout-options-leak", E, "extension.get_signal(field.name)", "(extension.signals and Some(extension.signals[0]) or extension.get_signal(field.name))", ["C04"]),
     ("layout-nested-prefix-lost", E, 'prefix=prefix + field.name + "::",', 'prefix=field.name + "::",', ["C04"]),
     ("verifier-typenames-structs-only", V, "type_names = [type.name for type in fcp.get_types()]", "type_names = [type.name for type in (fcp.structs if type in fcp.structs else fcp.enums)]", ["C09"]),
-    ("verifier-no-device-category", V, '            "device",\n            "uncategorized",', '            "uncategorized",', ["C09"]),
+    ("verifier-skips-last-categories", V, "        for category in self.categories:\n            self.run_checks(category, fcp).attempt()", "        for category in self.categories[:-2]:\n            self.run_checks(category, fcp).attempt()", ["C09"]),
     ("verifier-device-first-service-only", V, "                    return error(\n                        f'Service", "                    break\n                    return error(\n                        f'Service", ["C09"]),
     ("verifier-enum-values-skip-negative", V, "enumeration_names = [enumeration.value for enumeration in enum.enumeration]", "enumeration_names = [abs(enumeration.value) for enumeration in enum.enumeration]", ["C09"]),
     ("verifier-impl-dup-ignores-protocol-default", V, "if impls.count((left.name, left.protocol)) > 1:", 'if left.protocol != "default" and impls.count((left.name, left.protocol)) > 1:', ["C09"]),
@@ -49,6 +49,16 @@ MUTATIONS = [
     ("canc-size-72", "plugins/fcp_can_c/fcp_can_c/generator.py", "if size > 64:", "if size > 72:", ["C09"]),
     ("canc-size-ge", "plugins/fcp_can_c/fcp_can_c/generator.py", "if size > 64:", "if size >= 64:", ["C09"]),
     ("canc-unknown-struct-ok", "plugins/fcp_can_c/fcp_can_c/generator.py", "            struct = fcp.get_struct(extension.type)\n            if struct.is_nothing():\n                return error(\n                    f\"No matching type for extension", "            struct = fcp.get_struct(extension.type)\n            if struct.is_nothing() and extension.protocol == \"can\":\n                return error(\n                    f\"No matching type for extension", ["C09"]),
+    ("parser-error-drops-struct-name", "src/fcp/parser.py", 'f"Failed to parse field in struct {name}"', '"Failed to parse field in struct"', ["C08"]),
+    ("parser-optional-swallows-error", "src/fcp/parser.py", '            return Err(typename.err().results_in("Error parsing optional type"))', '            return Ok(OptionalType(StructType("unknown")))', ["C08"]),
+    ("parser-error-drops-type-name", "src/fcp/parser.py", """f"Type '{typename}' cannot be found.\"""", """"Type cannot be found.\"""", ["C08"]),
+    ("parser-struct-visible-to-own-fields", "src/fcp/parser.py", "        if self.fcp.get_struct(typename).is_some():\n            return Ok(StructType(typename))", "        if self.fcp.get_struct(typename).is_some() or len(self.fcp.structs) == 0:\n            return Ok(StructType(typename))", ["C08"]),
+    ("merge-drops-devices", "src/fcp/specs/v2.py", "        self.devices += fcp.devices\n", "", ["C20"]),
+    ("merge-dup-impls", "src/fcp/specs/v2.py", "        self.impls += fcp.impls\n", "        self.impls += fcp.impls if fcp.enums else fcp.impls + fcp.impls[:1]\n", ["C20"]),
+    ("mod-dots-not-slashes", "src/fcp/parser.py", '(".".join(tree.children).replace(".", "/") + ".fcp")', '(".".join(tree.children).replace(".", "/", 1) + ".fcp")', ["C20", "C08"]),
+    ("mod-relative-to-cwd", "src/fcp/parser.py", 'filename = self.path / (".".join(tree.children)', 'filename = (self.path if len(tree.children) == 1 else self.path.parent) / (".".join(tree.children)', ["C20", "C08"]),
+    ("mod-missing-file-unnamed", "src/fcp/parser.py", 'return error(f"File not found: {pathlib.Path(e.filename).name}")', 'return error("File not found")', ["C20"]),
+    ("mod-syntax-error-unnamed", "src/fcp/parser.py", "MetaData(e.line, e.line, e.column, e.column, 0, 0, str(filename))\n                ),\n            )\n\n        fcp = FcpV2Transformer", "MetaData(e.line, e.line, e.column, e.column, 0, 0, str(self.filename))\n                ),\n            )\n\n        fcp = FcpV2Transformer", ["C20"]),
     ("serde-array-last-elem", S, "    for i in range(type.size):\n        _encode(buffer, fcp, type.underlying_type, data[i])", "    for i in range(type.size):\n        _encode(buffer, fcp, type.underlying_type, data[min(i, 1)])", ["C01", "C02"]),
 ]
 
